@@ -13,7 +13,7 @@ def rebuild(t, f):
     elif k == "trybranch":
         from .prov import mk_trybranch
         n = mk_trybranch(rebuild(t[1], f))
-    elif k in ("clone", "take", "discr", "resok", "lockres", "trylockres"):
+    elif k in ("clone", "take", "discr", "resok", "optok", "lockres", "trylockres"):
         n = (k, rebuild(t[1], f))
     elif k == "wrap":
         n = ("wrap", t[1], rebuild(t[2], f))
